@@ -207,6 +207,47 @@ def sign_variants(case):
     return out
 
 
+def suppressed_operator_cases(tier="quick", n=8, p=None):
+    """operators on operands for which the run-time check would raise (inexact / zero / negative divisor, operands beyond the
+    bitlength, negative shift operands), reached where the library suppresses the error: ignore_errors(True), a false guard,
+    a lazy branch that is not taken, a block-API _if that is not taken.  What the objects report must still be what their
+    wires evaluate to (C04); the traces must still match the model."""
+    p = p or progs.BN
+    out = []
+    if tier == "quick":
+        ops = ["truediv", "floordiv", "mod", "lt", "rshift", "pow", "mul"]
+        kinds = [("lc", "lc"), ("lc", "int"), ("fxp", "int"), ("fxp", "fxp")]
+        ctxs = ["ign", "g0"]
+    else:
+        ops = ALL_BIN
+        kinds = [("lc", "lc"), ("lc", "int"), ("int", "lc"), ("fxp", "int"), ("fxp", "fxp"), ("fxp", "lc"), ("lc", "fxp"), ("bool", "lc"), ("lc", "bool")]
+        ctxs = ["ign", "g0", "lazy0", "if0", "g1g0"]
+    pairs = [(7, 3), (6, 0), (-7, 3), (2 ** n + 1, 3), (7, -3)]
+    for op in ops:
+        for (ka, kb) in kinds:
+            for (x, y) in pairs:
+                if op in ("pow", "lshift", "rshift") and kb in ("int",) and y <= 0: continue
+                if ka == "bool" and x not in (0, 1): x = 1
+                if kb == "bool" and y not in (0, 1): y = 1
+                for ctx in (ctxs + (["lazy0"] if tier == "quick" and op == "truediv" else [])):
+                    prog, nreg = [], [0]
+                    a = _operand(prog, nreg, ka, 0, x); b = _operand(prog, nreg, kb, 1, y)
+                    d = nreg[0]; nreg[0] += 1
+                    stmts = [["bin", d, op, a, b]]
+                    # the result is used once more inside the region (its value feeds a further constraint)
+                    e = nreg[0]; nreg[0] += 1
+                    stmts.append(["bin", e, "mul", d, a] if ka != "int" else ["bin", e, "mul", d, b])
+                    ins = [x, y, 0, 0]
+                    if ctx == "ign":
+                        body, gv = stmts, (1, 1)
+                    else:
+                        body, gv = _wrap(ctx, stmts, nreg, d)
+                    ins[2], ins[3] = gv
+                    out.append(dict(cfg=dict(p=p, n=n, res=2, ign=1 if ctx == "ign" else 0), prog=prog + body, ins=ins,
+                                    matrix="suppressed:%s:%s:%s:%d,%d:%s" % (op, ka, kb, x, y, ctx)))
+    return out
+
+
 def bigdiv_cases(p=None):
     """exact divisions whose quotient does not fit a float (above 2^53, odd low bits), by public and secret divisors"""
     p = p or progs.BN
